@@ -1717,4 +1717,40 @@ theorem conntrack_accept (hd a b c d : V) (pad : Bytes) (f : V) (acts : List V) 
   refine ⟨bss, hcnt, fun fuel tail hf => ?_⟩
   exact accept_ct bs bss (by omega) (by omega) hN.code_ok hN.len_ok hN.vendor_ok hN.sub_ok hz e1 hacc fuel tail (by omega)
 
+/-- no known action kind is a conntrack action -/
+theorem known_not_ct (v : V) (hk : ActionKnown v) : v.kind ≠ "NXActionConnTrack" := by
+  rcases hk with ⟨_, _, rfl⟩ | ⟨hk, _⟩ | ⟨hk, _⟩ | ⟨hk, _⟩ | ⟨hk, _⟩ | ⟨hk, _⟩ | ⟨hk, _⟩ | ⟨hk, _⟩ |
+    ⟨hk, _⟩ | ⟨hk, _⟩ | ⟨hk, _⟩ | ⟨_, _, _, rfl, _⟩ | ⟨_, _, _, _, rfl, _⟩ | ⟨_, _, _, _, rfl, _⟩ | ⟨ops, hops, _⟩
+  all_goals first
+    | (rw [hk]; decide)
+    | (intro hc; rw [hc] at hk; simp [nxFixedKinds] at hk; done)
+    | (obtain ⟨_, _, _, _, _, _, _, _, hw2, _⟩ := C03c.nat_history_length ops v hops
+       rw [hw2]; simp [natObj, V.kind]; done)
+    | (simp [V.kind]; done)
+
+/-- BRIDGE: the interface dispatch of a known (non-conntrack) action does not depend on the nesting bound, so the
+    acceptance proved for Action.MarshalBinary() holds for the nested dispatch inside a conntrack action -/
+theorem action_accept_inner (x : V) (bx : Bytes) (y : V) (h : Action.marshalD Action.encDepth x = .ok (bx, y))
+    (hk : ActionKnown x) : Accepted bx := by
+  have hne := known_not_ct x hk
+  have hleaf : ∀ d : Nat, Action.marshalD (d + 1) x = Action.marshalLeaf x := by
+    intro d; simp only [Action.marshalD, hne, if_false]
+  have e : Action.marshalD Action.encDepth x = Action.marshalM x := by
+    show Action.marshalD (4095 + 1) x = Action.marshalD (4096 + 1) x
+    rw [hleaf 4095, hleaf 4096]
+  rw [e] at h
+  exact action_accept x hk bx y h
+
+/-- `conntrack_accept` with the nested-dispatch hypothesis discharged by `action_accept_inner` -/
+theorem conntrack_accept' (hd a b c d : V) (pad : Bytes) (f : V) (acts : List V) (hpad : pad.length ≤ 3) (bs : Bytes) (v2 : V)
+    (ln : Nat) (hn : nxhdr (.obj "NXActionConnTrack" [hd, a, b, c, d, .bytes pad, f, .list acts]) = some (0xffff, ln, 0x2320, 35))
+    (h : NXActionConnTrack.marshalM (.obj "NXActionConnTrack" [hd, a, b, c, d, .bytes pad, f, .list acts]) = .ok (bs, v2))
+    (hwf : ∀ ls acts1, mapM2 (Action.lenD Action.encDepth) acts = .ok (ls, acts1) → ∀ x ∈ acts1,
+      ActionWFD (Action.encDepth - 1) x ∧ ActionKnown x)
+    (hlt : ∀ ls acts1, mapM2 (Action.lenD Action.encDepth) acts = .ok (ls, acts1) → 24 + (ls.map UInt16.toNat).sum < 65536)
+    (hz : allZero (slice bs 19 3) = true) :
+    ∃ nested : List Bytes, nested.length = acts.length ∧ ∀ fuel tail, acts.length + 1 < fuel →
+      walkAction (fuel + 1) (bs ++ tail) = .ok (.node "nx 35" bs (nested.map actTree), bs.length) :=
+  conntrack_accept hd a b c d pad f acts hpad bs v2 ln hn h hwf hlt hz (fun x bx y hxy hk => action_accept_inner x bx y hxy hk)
+
 end OFV.Props.C02c
